@@ -173,12 +173,15 @@ def gen_world(rng):
     if rng.random() < 0.6 and ("family" in roles or "partner" in roles):
         src = isos[roles["family"][-1]] if "family" in roles else isos[roles["partner"]]
         name = rng.choice(["Langmuir", "Langmuir", "DSLangmuir", "Henry", "Toth"])
-        pars = {"Langmuir": {"K": 1.25, "n_m": 4.5}, "DSLangmuir": {"K1": 2.5, "n_m1": 2.0, "K2": 0.25, "n_m2": 3.0},
-                "Henry": {"K": 0.75}, "Toth": {"K": 1.5, "n_m": 5.0, "t": 0.8}}[name]
+        munit = rng.choice(["bar", "bar", "Pa"])
+        ps = 1.0 if munit == "bar" else 1e-5      # affinity constants are per pressure unit
+        j = rng.uniform(0.9, 1.1)                   # full-precision parameters, as a fit would produce them
+        pars = {"Langmuir": {"K": 1.25 * j * ps, "n_m": 4.5 * j}, "DSLangmuir": {"K1": 2.5 * j * ps, "n_m1": 2.0, "K2": 0.25 * j * ps, "n_m2": 3.0 * j},
+                "Henry": {"K": 0.75 * j * ps}, "Toth": {"K": 1.5 * j * ps, "n_m": 5.0 * j, "t": 0.8}}[name]
         roles["model"] = len(isos)
         isos.append({"kind": "model", "material": src["material"], "adsorbate": src["adsorbate"], "temperature": src["temperature"],
-                     "units": dict(src["units"], pressure_unit=rng.choice(["bar", "bar", "Pa"])), "meta": {"branch": "ads"},
-                     "model": {"name": name, "rmse": 0.01, "parameters": pars, "pressure_range": [0.01, 10.0],
+                     "units": dict(src["units"], pressure_unit=munit), "meta": {"branch": "ads"},
+                     "model": {"name": name, "rmse": 0.01, "parameters": pars, "pressure_range": [0.01 / ps, 10.0 / ps],
                                "loading_range": [0.01, 5.0]}})
     if "model" in roles and "partner" in roles and rng.random() < 0.7:
         src = isos[roles["partner"]]
